@@ -4,6 +4,7 @@ import (
 	"fmt"
 	"go/token"
 	"go/types"
+	"math"
 	"sort"
 	"strings"
 
@@ -31,6 +32,10 @@ func checkC08(r *Run) {
 	r.cur = "J"
 	ruleA6(r, pj, []string{"internal/json"})
 	r.cur = "B"
+	// the front-end hands every value to the encoder: the buffer typestate of the binary build (also
+	// judged in C01/C09) includes that caller-supplied bytes are never appended raw (a raw
+	// json.RawMessage is a no-op difference in the JSON build and an unframed item in this one)
+	ruleA2(r, pb)
 	ruleDecoderEscape(r, pb)
 	// scalar/slice agreement inside the CBOR encoder (the JSON encoder's is part of C02)
 	ruleElemAgreementIn(r, pb, cborRel, 10)
@@ -466,6 +471,37 @@ func ruleWidth(r *Run, p *Prog) {
 			}
 		}
 	})
+	// the negative arm prints -(val+1): val+1 is formed exactly for val < 2^64-1 — no unguarded
+	// wrap-around, and no tighter bound either (every smaller val is a representable integer that
+	// must be printed from the formula, not from the constant of the extreme case)
+	eachInstr(one, func(b *ssa.BasicBlock, i int, in ssa.Instruction) {
+		add, ok := in.(*ssa.BinOp)
+		if !ok || add.Op != token.ADD {
+			return
+		}
+		rc, isC := add.X.(*ssa.Call)
+		if k, isK := constInt(add.Y); !isC || !u64[staticCallee(&rc.Call)] || !isK || k != 1 {
+			return
+		}
+		exact := false
+		for _, c := range necessaryCmps(one, add) {
+			if c.X != ssa.Value(rc) {
+				continue
+			}
+			cc, isConst := c.Y.(*ssa.Const)
+			if !isConst || cc.Value == nil {
+				continue
+			}
+			u, _ := constantUint64(cc)
+			switch {
+			case (c.Op == token.LSS || c.Op == token.NEQ) && u == math.MaxUint64:
+				exact = true
+			case c.Op == token.LEQ && u == math.MaxUint64-1:
+				exact = true
+			}
+		}
+		r.Ob("WIDTH", FnName(one)+"/negative-range", p.Pos(add.Pos()), exact, true, tern(exact, "-(val+1) is formed for exactly val < 2^64-1; only the one value whose successor does not fit takes the constant arm", "the guard of the negative-integer arm is not `val < 2^64-1`: either val+1 can wrap to 0, or representable values (e.g. the carrier of math.MinInt64) are sent to the arm that prints the constant for -2^64"))
+	})
 	r.Ob("WIDTH", FnName(one)+"/integers-use-uint64-reader", p.Pos(one.Pos()), direct, true, tern(direct, "integer items are read with the uint64 argument reader and printed from it", "cbor2JsonOneObject does not print integers from the uint64 argument reader (a narrower helper is used): values ≥ 2^63 are not preserved"))
 	// formatter: strconv.AppendUint on that value
 	fmtOK := false
@@ -857,6 +893,8 @@ func ruleFloatWidth(r *Run, p *Prog) {
 			first := int64(-1)
 			count := 0
 			bad := ""
+			var lit []byte // the bytes written, when they are all constant
+			litKnown := true
 			feasible := pa.WalkEval(func(bi int, in ssa.Instruction, e *miniEnv) {
 				c, ok := in.(*ssa.Call)
 				if !ok {
@@ -879,8 +917,10 @@ func ruleFloatWidth(r *Run, p *Prog) {
 						first = int64(str[0])
 					}
 					count += len(str)
+					lit = append(lit, str...)
 					return
 				}
+				litKnown = false
 				for _, el := range elems {
 					if count == 0 {
 						if el != nil {
@@ -896,6 +936,36 @@ func ruleFloatWidth(r *Run, p *Prog) {
 				continue
 			}
 			nRet++
+			// the three non-finite values are written as constants: each must be the IEEE 754 bit
+			// pattern of the value the path has just identified
+			class := ""
+			for _, c := range pa.Cmps() {
+				call, isCall := c.X.(*ssa.Call)
+				bv, isB := constBool(c.Y)
+				if !isCall || !isB || !((c.Op == token.EQL && bv) || (c.Op == token.NEQ && !bv)) {
+					continue
+				}
+				switch {
+				case isCallTo(&call.Call, "math.IsNaN"):
+					class = "NaN"
+				case isCallTo(&call.Call, "math.IsInf") && len(call.Call.Args) == 2:
+					if sgn, ok := constInt(call.Call.Args[1]); ok && sgn > 0 {
+						class = "+Inf"
+					} else if ok && sgn < 0 {
+						class = "-Inf"
+					}
+				}
+			}
+			if class != "" && bad == "" {
+				want := map[string]map[int]string{
+					"NaN":  {5: "\xfa\x7f\xc0\x00\x00", 9: "\xfb\x7f\xf8\x00\x00\x00\x00\x00\x00"},
+					"+Inf": {5: "\xfa\x7f\x80\x00\x00", 9: "\xfb\x7f\xf0\x00\x00\x00\x00\x00\x00"},
+					"-Inf": {5: "\xfa\xff\x80\x00\x00", 9: "\xfb\xff\xf0\x00\x00\x00\x00\x00\x00"},
+				}[class][w.n]
+				if litKnown && string(lit) != want {
+					bad = fmt.Sprintf("writes % x for %s, whose bit pattern is % x", lit, class, []byte(want))
+				}
+			}
 			if bad != "" || first != w.head || count != w.n {
 				okAll = false
 				if bad == "" {
